@@ -245,6 +245,33 @@ def tz_independence(ctx, repo):
     ctx.ob("F13z", fs.where, "parses through an aware .timestamp() or calendar.timegm", has)
 
 
+
+def local_state_cow(ctx, repo):
+    ctx.rule("COW", "OTTableReader/OTTableWriter.__setitem__ never mutate the localState dict they share with sub-readers/sub-writers created earlier: the dict that receives the item is a fresh copy (.copy() / dict(...)) of it", floor=2)
+    mod = repo.mod("ttLib/tables/otBase.py")
+    for cls in ("OTTableReader", "OTTableWriter"):
+        f = mod.func(cls + ".__setitem__")
+        stores = [st for st in walk_no_nested(f.node) if isinstance(st, ast.Assign) and isinstance(st.targets[0], ast.Subscript)]
+        ok = bool(stores)
+        why = "no item store found"
+        for st in stores:
+            tgt = st.targets[0].value
+            if not isinstance(tgt, ast.Name):
+                ok, why = False, f"`{norm(st)}` writes into {norm(tgt)} directly"
+                break
+            defs = [d for d in walk_no_nested(f.node) if isinstance(d, ast.Assign) and any(isinstance(t, ast.Name) and t.id == tgt.id for t in d.targets)]
+            fresh = bool(defs)
+            for d in defs:
+                arms = [d.value.body, d.value.orelse] if isinstance(d.value, ast.IfExp) else [d.value]
+                for a in arms:
+                    is_fresh = (isinstance(a, ast.Call) and ((isinstance(a.func, ast.Attribute) and a.func.attr == "copy") or call_name(a) in ("dict", "copy.copy", "copy"))) or isinstance(a, (ast.Dict, ast.DictComp))
+                    if not is_fresh:
+                        fresh = False
+                        why = f"`{tgt.id}` can be `{norm(a)}` itself: sub-readers created earlier see the new value"
+            ok = ok and fresh
+        ctx.ob("COW", f.where, f"{norm(stores[0]) if stores else None} on a fresh copy of self.localState", ok, "" if ok else why)
+
+
 # F11 -----------------------------------------------------------------------
 
 PURITY_AUDIT = {
@@ -478,4 +505,4 @@ def audit_discharge(ctx, repo):
     ctx.ob("F12d", tc.where, "finally: font.recalcTimestamp = <saved>", bool(fin))
 
 
-ALL = [f12_set_order, audit_discharge, f13_ambient, tz_independence, f11_compile_purity, lazy_independence, interning_order]
+ALL = [f12_set_order, audit_discharge, f13_ambient, tz_independence, local_state_cow, f11_compile_purity, lazy_independence, interning_order]
